@@ -12,8 +12,10 @@ export CARGO_NET_OFFLINE=true CARGO_TARGET_DIR="$WT/target"
 unset RUSTFLAGS
 cd "$WT" || exit 2
 git checkout -q -- . ; git clean -fdq -e _seeded -e _baseline -e target
-CRATE=$(grep -oE -e "-p [a-z_]+" "$S/demo/HOWTO.txt" | head -1 | awk '{print $2}')
-TEST=$(grep -oE -e "--test [A-Za-z0-9_]+" "$S/demo/HOWTO.txt" | head -1 | awk '{print $2}')
+# the command line is the one that has both "cargo test" and "--test" (prose may mention other crates)
+CMDLINE=$(grep -E "cargo test.*--test" "$S/demo/HOWTO.txt" | head -1)
+CRATE=$(echo "$CMDLINE" | grep -oE -e "-p [a-z_]+" | head -1 | awk '{print $2}')
+TEST=$(echo "$CMDLINE" | grep -oE -e "--test [A-Za-z0-9_]+" | head -1 | awk '{print $2}')
 if [ -z "$CRATE" ] || [ -z "$TEST" ]; then echo "CONFIRM: cannot parse crate/test from HOWTO"; exit 2; fi
 mkdir -p "$WT/$CRATE/tests"; cp "$S"/demo/*.rs "$WT/$CRATE/tests/" 2>/dev/null
 run_demo() { cargo test --offline -p "$CRATE" --test "$TEST" >"$WT/_seeded/$MUT/demo_$1.log" 2>&1; }
